@@ -424,7 +424,8 @@ def campaign(mod, prop_id, tier, seed_value, jobs, scratch, known, fixed,
                 minimised = pool.map(minimise_one, jobs_m, chunksize=1)
 
     lines = []
-    rdir = os.path.join(VERIF_ROOT, 'replays', prop_id)
+    rdir = os.path.join(os.environ.get('VERIF_OUT_DIR') or VERIF_ROOT,
+                        'replays', prop_id)
     viol_records = []
     for (key, small, repro, detail) in minimised:
         os.makedirs(rdir, exist_ok=True)
@@ -510,7 +511,9 @@ def write_evidence(mod, prop_id, tier, seed_value, stats, known, known_lines,
         'wall_s': round(wall, 2),
         'violations': len(viol_records),
     }
-    edir = os.path.join(VERIF_ROOT, 'evidence')
+    edir = os.environ.get('VERIF_OUT_DIR') and os.path.join(
+        os.environ['VERIF_OUT_DIR'], 'evidence') or os.path.join(
+        VERIF_ROOT, 'evidence')
     os.makedirs(edir, exist_ok=True)
     tmp = os.path.join(edir, '.%s.json.tmp' % prop_id)
     with open(tmp, 'w') as f:
